@@ -9,8 +9,6 @@ import (
 	"golang.org/x/tools/go/ssa"
 	"strings"
 
-	"golang.org/x/tools/go/types/typeutil"
-
 	"verif/sa/internal/core"
 	"verif/sa/internal/flow"
 )
@@ -56,7 +54,7 @@ func psIOMethodsParts(p *core.Program, ix *funcIndex, ps *types.Named) (writers,
 		ast.Inspect(fd.Body, func(n ast.Node) bool {
 			if call, ok := n.(*ast.CallExpr); ok {
 				if sel, ok := ast.Unparen(call.Fun).(*ast.SelectorExpr); ok && recv != nil && identVar(info, sel.X) == recv {
-					if fn, _ := typeutil.Callee(info, call).(*types.Func); fn != nil {
+					if fn, _ := flow.Callee(info, call).(*types.Func); fn != nil {
 						called[fn.Origin()] = true
 					}
 				}
@@ -201,7 +199,7 @@ func summariseU32Helper(p *core.Program, u flow.FuncUnit) (u32Helper, bool) {
 			if !ok {
 				return true
 			}
-			fn, _ := typeutil.Callee(info, call).(*types.Func)
+			fn, _ := flow.Callee(info, call).(*types.Func)
 			if reader {
 				if fn != nil && fn.FullName() == "io.ReadFull" && len(call.Args) == 2 && isStream(call.Args[0]) {
 					filled = baseIdentVar(info, call.Args[1])
@@ -249,7 +247,7 @@ func sectionEventsWith(p *core.Program, u flow.FuncUnit, isWriter bool, bind map
 	info := u.Pkg.TypesInfo
 	ix := indexFuncs(p)
 	helperOf := func(call *ast.CallExpr) (u32Helper, bool) {
-		fn, _ := typeutil.Callee(info, call).(*types.Func)
+		fn, _ := flow.Callee(info, call).(*types.Func)
 		if fn == nil || !inRepoObj(fn) {
 			return u32Helper{}, false
 		}
@@ -362,7 +360,7 @@ func sectionEventsWith(p *core.Program, u flow.FuncUnit, isWriter bool, bind map
 				}
 				return true
 			}
-			fn, _ := typeutil.Callee(info, call).(*types.Func)
+			fn, _ := flow.Callee(info, call).(*types.Func)
 			if fn == nil {
 				return true
 			}
@@ -674,7 +672,7 @@ func checkC11(p *core.Program, r *core.Report) {
 			if !ok {
 				return true
 			}
-			fn, _ := typeutil.Callee(info, call).(*types.Func)
+			fn, _ := flow.Callee(info, call).(*types.Func)
 			if fn == nil || fn.Pkg() == nil || fn.Pkg().Path() != "github.com/consensys/gnark/backend/groth16" || !strings.HasPrefix(fn.Name(), "New") {
 				return true
 			}
@@ -747,7 +745,7 @@ func checkC11(p *core.Program, r *core.Report) {
 				}
 				switch x := ast.Unparen(e).(type) {
 				case *ast.CallExpr:
-					if fn, ok := typeutil.Callee(info, x).(*types.Func); ok && fn.Pkg() != nil && fn.Pkg().Path() == "github.com/urfave/cli/v2" && len(x.Args) == 1 {
+					if fn, ok := flow.Callee(info, x).(*types.Func); ok && fn.Pkg() != nil && fn.Pkg().Path() == "github.com/urfave/cli/v2" && len(x.Args) == 1 {
 						if s, ok := constString(info, x.Args[0]); ok {
 							name = s
 						}
@@ -770,7 +768,7 @@ func checkC11(p *core.Program, r *core.Report) {
 			if !ok {
 				return true
 			}
-			fn, _ := typeutil.Callee(info, call).(*types.Func)
+			fn, _ := flow.Callee(info, call).(*types.Func)
 			if fn == nil {
 				return true
 			}
@@ -791,7 +789,7 @@ func checkC11(p *core.Program, r *core.Report) {
 						if src == nil {
 							continue
 						}
-						if f2, ok := typeutil.Callee(info, src).(*types.Func); ok && f2.FullName() == "os.Create" && len(src.Args) == 1 {
+						if f2, ok := flow.Callee(info, src).(*types.Func); ok && f2.FullName() == "os.Create" && len(src.Args) == 1 {
 							dest = flagOf(src.Args[0])
 						}
 					}
@@ -812,7 +810,7 @@ func checkC11(p *core.Program, r *core.Report) {
 							problems = append(problems, "the written system is assigned from a non-call expression")
 							continue
 						}
-						f2, _ := typeutil.Callee(info, src).(*types.Func)
+						f2, _ := flow.Callee(info, src).(*types.Func)
 						if f2 == nil || !inRepoObj(f2) || f2.Type().(*types.Signature).Results().Len() != 2 || namedOf(f2.Type().(*types.Signature).Results().At(0).Type()) != ps {
 							problems = append(problems, "the written system does not come from an in-repo constructor/loader returning (*ProvingSystem, error)")
 						}
@@ -835,7 +833,7 @@ func checkC11(p *core.Program, r *core.Report) {
 		var loads, creates []*ast.CallExpr
 		ast.Inspect(c.Action.Node, func(n ast.Node) bool {
 			if call, ok := n.(*ast.CallExpr); ok {
-				if fn, _ := typeutil.Callee(info, call).(*types.Func); fn != nil {
+				if fn, _ := flow.Callee(info, call).(*types.Func); fn != nil {
 					if loaderObjs[fn.Origin()] {
 						loads = append(loads, call)
 					}
